@@ -105,6 +105,16 @@ func C04(c *Ctx) {
 	// ---- C04-c
 	c04Wiring(c, g)
 
+	// a code-block node reached twice (inlined rule) must be a distinct copy, because the builder assigns FuncIx on
+	// the first visit and zeroes it after emitting the method: a shared node gets its method emitted for one rule only
+	codeKinds := map[string]bool{}
+	for _, k := range sk.Kinds {
+		if k.CodeWriter != "" {
+			codeKinds[k.Name] = true
+		}
+	}
+	cloneOwnership(c, "C04-c", codeKinds)
+
 	// ---- C04-d
 	c04Unicode(c, g)
 
